@@ -96,7 +96,7 @@ class QueryTemplateTransformation(QueryPostprocessingTransformation, TemplateBas
     """
 
     def apply(self, rule: SigmaRule | SigmaCorrelationRule, query: Any) -> Any:
-        return self.j2template.render(query=query, rule=rule, pipeline=self._pipeline)
+        return self.render(query=query, rule=rule, pipeline=self._pipeline)
 
 
 @dataclass
